@@ -145,18 +145,62 @@ Definition or_else {A} (o : option A) (d : A) : option A := match o with Some _ 
 (* ---------- delimited.go: what the reader finds at the head of its input ---------- *)
 Inductive item := INeed | IMsg (m rest : bytes) | IOver (rest : bytes).
 
+(* ---------- which reader is handed which size limit (the wiring between the two runner files) ----------
+   Both limits are constants of the package (regenerated into C10_Consts.v): maxClientResponseSize is
+   declared in client_runner.go, maxServerResponseSize in server_runner.go; each is the last argument
+   of one call of internal.ReadDelimitedMessage.  ReadDelimitedMessage refuses a message whose
+   declared size is ABOVE the limit it was handed (size > max), right after the 4-byte prefix. *)
+Inductive reader_kind :=
+| ClientOutputReader        (* consumeOutput (client_runner.go): answers of the client under test *)
+| ServerResponseReader.     (* runTestCasesForServer (server_runner.go): the ServerCompatResponse *)
+Definition limit_of (k : reader_kind) : N :=
+  match k with
+  | ClientOutputReader => c10_max_response
+  | ServerResponseReader => c10_max_server_response
+  end.
+Definition reader_accepts (k : reader_kind) (size : N) : bool := size <=? limit_of k.
+
 Definition next_item (b : bytes) : item :=
   if N.of_nat (length b) <? c10_prefix_len then INeed else
   let size := be_decode (firstn 4 b) 0 in
   let body := skipn 4 b in
-  if c10_max_response <? size then IOver body
+  if negb (reader_accepts ClientOutputReader size) then IOver body
   else if N.of_nat (length body) <? size then INeed
   else IMsg (firstn (N.to_nat size) body) (skipn (N.to_nat size) body).
 
+(* protobuf varints (at most 5 bytes here) *)
+Fixpoint enc_varint (fuel : nat) (v : N) : bytes :=
+  match fuel with
+  | O => [v mod 128]
+  | S f => if v <? 128 then [v] else (128 + v mod 128) :: enc_varint f (v / 128)
+  end.
+Fixpoint dec_varint (fuel : nat) (l : bytes) : option (N * bytes) :=
+  match l with
+  | [] => None
+  | b :: r =>
+    if b <? 128 then Some (b, r) else
+    match fuel with
+    | O => None
+    | S f => match dec_varint f r with Some (v, r') => Some (b - 128 + 128 * v, r') | None => None end
+    end
+  end.
+Definition varint_len (v : N) : N :=
+  if v <? 128 then 1 else if v <? 16384 then 2 else if v <? 2097152 then 3 else if v <? 268435456 then 4 else 5.
+
+(* a padding field: field 15 (not a field of ClientCompatResponse: protobuf-go keeps it as an unknown
+   field), length-delimited, p bytes.  This is how the harness makes an answer as large as it likes. *)
+Definition pad_field (p : N) : bytes := 122 :: enc_varint 4 p ++ repeat 0 (N.to_nat p).
+Definition is_pad (l : bytes) : bool :=
+  match l with
+  | [] => true
+  | 122 :: r => match dec_varint 4 r with Some (p, body) => N.of_nat (length body) =? p | None => false end
+  | _ => false
+  end.
+
 (* proto.Unmarshal into ClientCompatResponse, for the message shapes the harness writes:
-   test_name (field 1) and optionally error{message} (field 3 / field 1) carrying a marker.
-   Anything else is "garbled" here; the generator only emits garbage that protobuf-go
-   rejects as well. *)
+   test_name (field 1), optionally error{message} (field 3 / field 1) carrying a marker, optionally
+   one padding field at the end.  Anything else is "garbled" here; the generator only emits garbage
+   that protobuf-go rejects as well. *)
 Definition decode (m : bytes) : option (name * bytes) :=
   match m with
   | [] => Some ([], [])
@@ -166,7 +210,9 @@ Definition decode (m : bytes) : option (name * bytes) :=
       match skipn (N.to_nat l) r with
       | [] => Some (nm, [])
       | 26 :: l2 :: 10 :: l3 :: t =>
-        if (l3 <? 126) && (l2 =? l3 + 2) && (N.of_nat (length t) =? l3) then Some (nm, t) else None
+        if (l3 <? 126) && (l2 =? l3 + 2) && (l3 <=? N.of_nat (length t)) && is_pad (skipn (N.to_nat l3) t)
+        then Some (nm, firstn (N.to_nat l3) t) else None
+      | 122 :: t => if is_pad (122 :: t) then Some (nm, []) else None
       | _ => None
       end
     else None
@@ -178,6 +224,8 @@ Definition encode (n : name) (tag : bytes) : bytes :=
   let ln := N.of_nat (length n) in
   let lt := N.of_nat (length tag) in
   10 :: ln :: n ++ (match tag with [] => [] | _ => 26 :: (lt + 2) :: 10 :: lt :: tag end).
+(* ... and the same answer made larger by p bytes of padding *)
+Definition encode_padded (n : name) (tag : bytes) (p : N) : bytes := encode n tag ++ pad_field p.
 Definition frame (m : bytes) : bytes := be32 (N.of_nat (length m)) ++ m.
 
 (* ---------- the reader leaves its loop with reason r ---------- *)
@@ -358,6 +406,52 @@ Definition is_running (s : st) : bool := negb s.(term).
 (* ====================================================================== *)
 (* case decoding / result encoding (extracted glue)                       *)
 (* ====================================================================== *)
+(* ---------- answers of a chosen ENCODED SIZE (action code 15) ----------
+   `(15 name marker base delta)`: the client writes, in one piece, the framed answer
+   encode_padded name marker p whose encoded size is  total = <base> + delta,  where base 0 is 0,
+   base 1 the limit of the server-response reader and base 2 the limit of the client-output reader
+   (so the case file names sizes relative to the constants the code has NOW).
+   The model does not build the megabytes: by C10_LimitProofs.padded_answer_read_like_plain the reader,
+   standing at a frame boundary, does with such a frame exactly what it does with the plain answer
+   frame (encode name marker) when the wiring lets the size through, and it stops at the 4-byte
+   prefix otherwise (the harness writes nothing but the prefix then). *)
+Definition pad_for (base total : N) : option N :=
+  let try := fun k : N =>
+    if base + 1 + k <=? total then
+      let p := total - base - 1 - k in if varint_len p =? k then Some p else None
+    else None in
+  match try 1, try 2, try 3, try 4 with
+  | Some p, _, _, _ => Some p
+  | _, Some p, _, _ => Some p
+  | _, _, Some p, _ => Some p
+  | _, _, _, Some p => Some p
+  | _, _, _, _ => None
+  end.
+Definition limit_base (b : Z) : option N :=
+  match b with
+  | 0%Z => Some 0
+  | 1%Z => Some (limit_of ServerResponseReader)
+  | 2%Z => Some (limit_of ClientOutputReader)
+  | _ => None
+  end.
+Definition padded_total (base delta : Z) : option N :=
+  match limit_base base with
+  | Some lb => let t := (Z.of_N lb + delta)%Z in
+               if (t <? 0)%Z || (4294967296 <=? t)%Z then None else Some (Z.to_N t)
+  | None => None
+  end.
+Definition padded_out (n tag : bytes) (base delta : Z) : option bytes :=
+  match padded_total base delta with
+  | Some total =>
+    if (0 <? N.of_nat (length n)) && (N.of_nat (length n) <? 100) && (N.of_nat (length tag) <? 100) then
+      match pad_for (N.of_nat (length (encode n tag))) total with
+      | Some _ => Some (if reader_accepts ClientOutputReader total then frame (encode n tag) else be32 total)
+      | None => None
+      end
+    else None
+  | None => None
+  end.
+
 Definition un_action (s : sx) : option action :=
   match s with
   | L [I 0%Z; I i; B n] => Some (SendCheck (Z.to_N i) n QOk)
@@ -379,6 +473,8 @@ Definition un_action (s : sx) : option action :=
   | L [I 12%Z] => Some CloseSend
   | L [I 13%Z] => Some Stop
   | L [I 14%Z] => Some Wait
+  | L [I 15%Z; B n; B tag; I base; I delta] =>
+    match padded_out n tag base delta with Some bs => Some (COut bs) | None => None end
   | _ => None
   end.
 
